@@ -3,6 +3,7 @@
 package main
 
 import (
+	"time"
 	"fmt"
 	"strings"
 
@@ -81,7 +82,12 @@ func gen(tier string, seed int64) []hx.Scenario {
 			if liar >= 0 && n == 2 && liar == 0 && false {
 				continue
 			}
-			out = append(out, hx.Scenario{Name: "deniable", Cfg: fmt.Sprintf("n=%d liar=%d", n, liar), Run: func(x *hx.Ctx) { deniableCase(x, n, liar) }})
+			out = append(out, hx.Scenario{Name: "deniable", Cfg: fmt.Sprintf("n=%d liar=%d", n, liar), Run: func(x *hx.Ctx) { deniableCase(x, n, liar, "") }})
+			if liar < 0 {
+				for _, b := range []string{"own-key-empty", "own-key-short", "vector-truncated"} {
+					out = append(out, hx.Scenario{Name: "deniable-board", Cfg: fmt.Sprintf("n=%d board=%s", n, b), Run: func(x *hx.Ctx) { deniableCase(x, n, -1, b) }})
+				}
+			}
 		}
 	}
 	return out
@@ -259,7 +265,11 @@ func (n *dnode) Step(msg []byte) ([][]byte, error) {
 }
 func (n *dnode) Random() kyber.XOF { return n.s.XOF([]byte(fmt.Sprintf("deniable-seed-%d", n.i))) }
 
-func deniableCase(x *hx.Ctx, n, liar int) {
+// board: "" honest | "own-key-empty" | "own-key-short" | "vector-truncated": in the round in which the participants reveal
+// their challenge keys (every message is exactly the 128-byte key), the board hands participant 0 a vector whose slot 0
+// - its OWN key - is emptied / shortened / cut off. Participant 0 must then accept nobody: its own randomness no longer
+// enters the challenge, so a colluding prover could know the challenge before committing.
+func deniableCase(x *hx.Ctx, n, liar int, board string) {
 	s := x.S
 	B := s.Point().Base()
 	xs := make([]kyber.Scalar, n)
@@ -291,6 +301,7 @@ func deniableCase(x *hx.Ctx, n, liar int) {
 		}()
 	}
 	live := append([]*dnode{}, nodes...)
+	tampered := false
 	for rounds := 0; rounds < 50; rounds++ {
 		msgs := make([][]byte, n)
 		any := false
@@ -299,7 +310,17 @@ func deniableCase(x *hx.Ctx, n, liar int) {
 				continue
 			}
 			any = true
-			msgs[i] = <-nd.outbox
+			if board == "" {
+				msgs[i] = <-nd.outbox
+			} else {
+				// after a board fault a participant may legitimately stop talking (its verifiers wait for ever): give up on it
+				select {
+				case msgs[i] = <-nd.outbox:
+				case <-time.After(3 * time.Second):
+					live[i] = nil
+					continue
+				}
+			}
 			if nd.done {
 				live[i] = nil
 			}
@@ -307,11 +328,39 @@ func deniableCase(x *hx.Ctx, n, liar int) {
 		if !any {
 			break
 		}
-		for _, nd := range live {
-			if nd != nil {
-				nd.inbox <- msgs
+		keyRound := board != ""
+		for _, m := range msgs {
+			if m != nil && len(m) != 128 {
+				keyRound = false
 			}
 		}
+		for i, nd := range live {
+			if nd == nil {
+				continue
+			}
+			deliver := msgs
+			if keyRound && i == 0 {
+				tampered = true
+				deliver = append([][]byte{}, msgs...)
+				switch board {
+				case "own-key-empty":
+					deliver[0] = nil
+				case "own-key-short":
+					deliver[0] = deliver[0][:127]
+				case "vector-truncated":
+					deliver = [][]byte{}
+				}
+			}
+			nd.inbox <- deliver
+		}
+	}
+	if board != "" {
+		x.Require("the key-reveal round was reached and tampered with", tampered)
+		for j := 1; j < n; j++ {
+			accepted := nodes[0].done && j < len(nodes[0].errs) && nodes[0].errs[j] == nil
+			x.Require(fmt.Sprintf("participant 0, whose own key was withheld by the board, does not accept the proof of %d", j), !accepted)
+		}
+		return
 	}
 	for i, nd := range nodes {
 		if !x.Require(fmt.Sprintf("participant %d finished", i), nd.done) {
